@@ -113,7 +113,9 @@ func (srv *BfeServer) serverDataConfReload(hostFile, vipFile, routeFile, cluster
 	srv.ServerConf = newServerConf
 	srv.confLock.Unlock()
 
-	srv.ReverseProxy.setTransports(srv.ServerConf.ClusterTable.ClusterMap())
+	// Note: use newServerConf here; srv.ServerConf must not be read outside confLock
+	// (another reload may be writing it concurrently)
+	srv.ReverseProxy.setTransports(newServerConf.ClusterTable.ClusterMap())
 
 	// set gslb basic
 	srv.balTable.SetGslbBasic(newServerConf.ClusterTable)
